@@ -24,8 +24,7 @@ RULE = ("seg: atom arrays built residue by residue (repeated ids in different ch
         "distinct = different (atoms, indices, data) resp. (n, bonds, roots)")
 TRUSTED = ["numpy slicing/where/concatenate/searchsorted(side=right)/repeat modelled by documented semantics",
            "BondList constructor (index validation, de-duplication) is outside the model: the model takes the bond pairs"]
-ASSUMPTIONS = ["np.diff(res_id) does not wrap (|res_id| < 2**62)",
-               "C stack depth is not modelled: the model's fuel is the recursion depth, the forked big-graph runs observe the real limit"]
+ASSUMPTIONS = ["C stack depth is not modelled: the model's fuel is the recursion depth, the forked big-graph runs observe the real limit"]
 LEVEL_TEXT = ("Lean theorems for all inputs: starts = exactly the per-atom boundaries; segments partition the array "
               "(concat = array, non-empty, no boundary inside, boundary between); starts_for/positions/masks/"
               "spread∘apply = direct per-atom recomputation; negative/out-of-range indices rejected; the recursive DFS "
@@ -37,9 +36,9 @@ TECHNIQUE = "Lean 4 proof (induction over lists / fuel-indexed DFS invariant) + 
 
 # token tables (append only: corpus / witnesses refer to indices).  Strings of every length up to the annotation
 # dtype widths (chain_id U4, ins_code U1, res_name U5), incl. values that differ only in the last characters.
-CHAINS = ["A", "B", "C", "AA", "", "AAAA", "AAAB", "AAA", "AB"]
+CHAINS = ["A", "B", "C", "AA", "", "AAAA", "AAAB", "AAA", "AB", " ", "a", " A", "A "]
 INS = ["", "A", "B", "a"]
-NAMES = ["ALA", "GLY", "HOH", "LIG", "A1LU6", "A1LU7", "A1LU", "A1L", "DA", "A", "GLYX", "GLYY", "U", "AU"]
+NAMES = ["ALA", "GLY", "HOH", "LIG", "A1LU6", "A1LU7", "A1LU", "A1L", "DA", "A", "GLYX", "GLYY", "U", "AU", "\u00e9", " ", "ala", "AL A"]
 FNS = ["sum", "max", "len", "first", "minmax"]
 XFNS = ["mean0", "sum0", "half", "anypos", "minmaxmean",     # result dtype differs from the data dtype
         "sumall", "maxall", "minall",                          # np.sum/np.max/np.min without axis: scalar per segment
@@ -113,23 +112,37 @@ def gen_lean():
     # chains: np.where(<decrement> | <chain change>)
     f = _func(cha, "get_chain_starts")
     cfields = _change_fields(f)
-    dec = None
-    diff_of = None
+    # the residue ID test: `array.X[1:] < array.X[:-1]` (or the mirrored `>`) -> "decrease:X"; a test on np.diff(X)
+    # is reported as "diff:X:<op>:<bound>" (int64 differences wrap: obligation fails)
+    dec = {}
+    diff_of = {}
     for node in ast.walk(f):
-        if isinstance(node, ast.Assign) and isinstance(node.value, ast.Call) and ast.unparse(node.value.func) == "np.diff":
-            a = node.value.args[0]
-            if isinstance(a, ast.Attribute):
-                diff_of = (node.targets[0].id, a.attr)
-        if isinstance(node, ast.Assign) and isinstance(node.value, ast.Compare) and isinstance(node.value.left, ast.Name) \
-                and diff_of and node.value.left.id == diff_of[0]:
-            dec = (node.targets[0].id, type(node.value.ops[0]).__name__, ast.unparse(node.value.comparators[0]))
-    if not diff_of or not dec:
+        if not (isinstance(node, ast.Assign) and isinstance(node.targets[0], ast.Name)):
+            continue
+        val = node.value
+        if isinstance(val, ast.Call) and ast.unparse(val.func) == "np.diff" and isinstance(val.args[0], ast.Attribute):
+            diff_of[node.targets[0].id] = val.args[0].attr
+        if isinstance(val, ast.Compare) and len(val.ops) == 1:
+            l, r = val.left, val.comparators[0]
+            op = type(val.ops[0]).__name__
+            if isinstance(l, ast.Name) and l.id in diff_of:
+                dec[node.targets[0].id] = "diff:" + diff_of[l.id] + ":" + op + ":" + ast.unparse(r)
+            elif op in ("Lt", "Gt") and all(isinstance(x, ast.Subscript) and isinstance(x.value, ast.Attribute) for x in (l, r)) \
+                    and l.value.attr == r.value.attr:
+                sl = (ast.unparse(l.slice), ast.unparse(r.slice))
+                if (op, sl) in (("Lt", ("1:", ":-1")), ("Gt", (":-1", "1:"))):
+                    dec[node.targets[0].id] = "decrease:" + l.value.attr
+                elif (op, sl) in (("Gt", ("1:", ":-1")), ("Lt", (":-1", "1:"))):
+                    dec[node.targets[0].id] = "increase:" + l.value.attr
+                else:
+                    raise ValueError(f"get_chain_starts: unexpected shifted comparison {ast.unparse(node)}")
+    if not dec:
         raise ValueError("get_chain_starts: res_id decrement test not found")
     cunion = None
     for node in ast.walk(f):
         if isinstance(node, ast.BinOp) and isinstance(node.op, ast.BitOr):
             names = _or_names(node)
-            cunion = [("diff:" + diff_of[1] + ":" + dec[1] + ":" + dec[2]) if n == dec[0] else cfields[n] for n in names]
+            cunion = [dec[n] if n in dec else cfields[n] for n in names]
     if not cunion:
         raise ValueError("get_chain_starts: union of masks not found")
     # both: the empty-array early return, evaluated for add_exclusive_stop = False / True
@@ -209,7 +222,7 @@ def gen_lean():
         "namespace BiotiteModel.Gen.C17",
         "/-- annotations whose change masks are OR-ed in `get_residue_starts`. -/",
         f"def residueFields : List String := {_lean_strs(union)}",
-        "/-- operands of the mask union in `get_chain_starts` (`diff:<annotation>:<op>:<bound>` for the np.diff test). -/",
+        "/-- operands of the mask union in `get_chain_starts` (`decrease:<annotation>` for `X[1:] < X[:-1]`, `diff:<annotation>:<op>:<bound>` for a test on np.diff). -/",
         f"def chainTerms : List String := {_lean_strs(cunion)}",
         "/-- (without, with exclusive stop) returned for an empty array by get_residue_starts / get_chain_starts. -/",
         "def emptyReturns : List (List Nat × List Nat) := [" + ", ".join(f"({list(a)}, {list(b)})" for a, b in empties) + "]",
@@ -294,6 +307,16 @@ def _gen_atoms(rng):
                 for _ in range(rng.choice([1, 1, 3])):
                     atoms.append([chain_tok, hres, 0, hname, 1])
                 hres += rng.choice([1, 1, 2, -1])
+    if rng.random() < 0.12:
+        # res_ids at the ends of the int64 range (audit 6: the generator used to keep |res_id| small): a step from the
+        # top to the bottom of the range is a decrease, a step back an increase, although their differences wrap
+        hi = rng.random() < 0.5
+        prev = None
+        for a in atoms:
+            if prev is not None and (a[0], a[1], a[2], a[3]) != prev and rng.random() < 0.35:
+                hi = not hi
+            prev = (a[0], a[1], a[2], a[3])
+            a[1] = (2 ** 63 - 1 - 300 + a[1]) if hi else (-2 ** 63 + 300 + a[1])
     if rng.random() < 0.25:                              # per-atom noise
         for _ in range(rng.randint(1, 3)):
             a = rng.choice(atoms)
@@ -317,7 +340,7 @@ def _seg_case(rng, atoms=None):
     r = rng.random()
     if r < 0.35:
         bad = list(idx)
-        bad.insert(rng.randint(0, len(bad)), rng.choice([-1, -1, -n, -n - 1, -2, n, n, n + 1, n + 7, 2 * n + 1]))
+        bad.insert(rng.randint(0, len(bad)), rng.choice([-1, -1, -n, -n - 1, -2, n, n, n + 1, n + 7, 2 * n + 1, 2 ** 31, 2 ** 32, 2 ** 63 - 1, 2 ** 63, 2 ** 64 + 1, -2 ** 63]))
     data = [rng.randint(-50, 50) for _ in range(n)]
     case = {"kind": "seg", "atoms": atoms, "idx": idx, "bad_idx": bad, "data": data,
             "fn": rng.choice(FNS),
@@ -326,6 +349,11 @@ def _seg_case(rng, atoms=None):
     case["applyx"] = [_gen_applyx(rng, n) for _ in range(rng.choice([1, 1, 2]))]
     # the same annotations in an AtomArrayStack whose model count differs from the atom count (len(stack) != atoms)
     case["stack"] = rng.choice([d for d in (1, 2, 3, 5, n + 1, max(1, n - 1), 2 * n + 2) if d != n]) if rng.random() < 0.35 else 0
+    case["bad_data"] = None
+    if rng.random() < 0.12:
+        m = rng.choice([0, 1, max(0, n - 1), n + 1, 2 * n + 3, max(0, n // 2)])
+        if m != n:
+            case["bad_data"] = {"fn": rng.choice(["sum", "len"]), "data": [rng.randint(-9, 9) for _ in range(m)]}
     case["spell"] = rng.sample(IDX_SPELLINGS, 2)
     case["dspell"] = rng.sample(DATA_SPELLINGS, 1)
     case["mods"] = []
@@ -374,6 +402,8 @@ def _seg_ops(case):
                     f"positions {w} {_ints(case['bad_idx'])}"]
         if case.get("bad_spread") is not None:
             ops.append(f"spread {w} {_ints(case['bad_spread'])}")
+        if case.get("bad_data"):
+            ops.append(f"apply {w} {case['bad_data']['fn']} {_ints(case['bad_data']['data'])}")
         if case.get("bad_idx") is not None or case.get("bad_spread") is not None:
             # after the refused calls the same array answers as before
             ops += [f"positions {w} {_ints(case['idx'])}", f"masks {w} {_ints(case['idx'])}"]
@@ -476,6 +506,62 @@ def _graph_ops(case):
     return ops
 
 
+def _bigseg_cases(tier):
+    return [{"kind": "bigseg", "n": 200000 if tier == "quick" else 2000000, "seed": k} for k in range(1 if tier == "quick" else 3)]
+
+
+def _bigseg_oracle(case):
+    """audit 6 (generator caps arrays at ~60 atoms): one large array, per-atom loop against the real code"""
+    import bisect
+    import random
+    import numpy as np
+    import biotite.structure as struc
+    rng = random.Random(case["seed"])
+    n = case["n"]
+    chain, res, ins, name = [], [], [], []
+    c, r, i, nm = 0, 1, 0, 0
+    while len(chain) < n:
+        k = rng.choice([1, 1, 2, 5, 8, 14])
+        chain += [c] * k
+        res += [r] * k
+        ins += [i] * k
+        name += [nm] * k
+        u = rng.random()
+        if u < 0.8:
+            r += 1
+        elif u < 0.85:
+            i = (i + 1) % len(INS)
+        elif u < 0.9:
+            nm = rng.randrange(len(NAMES))
+        elif u < 0.95:
+            r = rng.choice([1, r - 3])
+        else:
+            c = rng.randrange(len(CHAINS))
+            r = 1
+    chain, res, ins, name = chain[:n], res[:n], ins[:n], name[:n]
+    a = struc.AtomArray(n)
+    a.chain_id = np.array(CHAINS, dtype="U4")[chain]
+    a.res_id = np.array(res)
+    a.ins_code = np.array(INS, dtype="U1")[ins]
+    a.res_name = np.array(NAMES, dtype="U5")[name]
+    key = [(CHAINS[chain[j]], res[j], INS[ins[j]], NAMES[name[j]]) for j in range(n)]
+    rs = [0] + [j for j in range(1, n) if key[j] != key[j - 1]]
+    cs = [0] + [j for j in range(1, n) if key[j][0] != key[j - 1][0] or res[j] < res[j - 1]]
+    v = []
+    if struc.get_residue_starts(a, add_exclusive_stop=True).tolist() != rs + [n] or struc.get_residue_count(a) != len(rs):
+        v.append(("C17/get_residue_starts/boundaries-large", f"{n} atoms (seed {case['seed']}): starts differ from the per-atom loop"))
+    if struc.get_chain_starts(a, add_exclusive_stop=True).tolist() != cs + [n] or struc.get_chain_count(a) != len(cs):
+        v.append(("C17/get_chain_starts/boundaries-large", f"{n} atoms (seed {case['seed']}): starts differ from the per-atom loop"))
+    idx = [0, n - 1] + [rng.randrange(n) for _ in range(50)]
+    if struc.get_residue_positions(a, np.array(idx)).tolist() != [bisect.bisect_right(rs, j) - 1 for j in idx] \
+            or struc.get_chain_starts_for(a, np.array(idx)).tolist() != [cs[bisect.bisect_right(cs, j) - 1] for j in idx]:
+        v.append(("C17/positions-starts_for/large", f"{n} atoms (seed {case['seed']})"))
+    d = np.arange(n) % 7
+    if struc.apply_residue_wise(a, d, np.sum).tolist() != [int(d[x:y].sum()) for x, y in zip(rs, rs[1:] + [n])]:
+        v.append(("C17/apply_residue_wise/value-large", f"{n} atoms (seed {case['seed']})"))
+    return v
+
+
 def _big_cases(tier):
     if tier == "quick":
         spec = [("chain", 200000), ("chain", 20000), ("stars", 21000), ("forest", 20000), ("ring", 30000), ("comb", 60000)]
@@ -493,6 +579,7 @@ def cases(rng, tier):
     for _ in range(n_graph):
         yield _gen_graph(rng)
     yield from _big_cases(tier)
+    yield from _bigseg_cases(tier)
 
 
 def _mk(atoms, **kw):
@@ -500,7 +587,7 @@ def _mk(atoms, **kw):
          "data": kw.get("data", list(range(len(atoms)))), "fn": kw.get("fn", "sum"),
          "spread": {w: list(range(_n_segments(atoms, w))) for w in "rc"}, "bad_spread": kw.get("bad_spread"),
          "applyx": kw.get("applyx", []), "stack": kw.get("stack", 0), "mods": kw.get("mods", []),
-         "spell": kw.get("spell", []), "dspell": kw.get("dspell", [])}
+         "spell": kw.get("spell", []), "dspell": kw.get("dspell", []), "bad_data": kw.get("bad_data")}
     c["ops"] = _seg_ops(c)
     return c
 
@@ -538,6 +625,9 @@ def corpus():
             mods=[[1, [0, 2, 0, 0, 0]], [4, [1, 2, 0, 0, 0]]], spell=list(IDX_SPELLINGS), dspell=list(DATA_SPELLINGS),
             applyx=[{"fn": "sumall", "kind": "i", "cols": 2, "data": list(range(10))},
                     {"fn": "mean0", "kind": "f", "cols": 3, "data": list(range(15))}]),
+        # res_ids at both ends of the int64 range: 1 is a decrease (new chain), 3 an increase (no new chain)
+        _mk([[0, 2 ** 63 - 1, 0, 0], [0, -2 ** 63, 0, 0], [0, -2 ** 63, 0, 0], [0, 2 ** 63 - 1, 0, 0], [0, 2 ** 63 - 2, 0, 0]],
+            idx=[0, 1, 3, 4]),
         # adjacent residues whose concatenated labels chain+ins+name coincide although the annotations differ
         _mk([[0, 5, 1, 12], [0, 5, 1, 12], [0, 5, 0, 13], [0, 7, 1, 0], [3, 7, 0, 0], [3, 7, 0, 0]], idx=[0, 2, 3, 5]),
         # residue names / chain ids that differ only in the 4th/5th (4th) character
@@ -637,6 +727,14 @@ def _show_applyx(res):
     return f"ok {k} " + ",".join(":".join(one(v) for v in np.asarray(row).reshape(-1)) for row in res)
 
 
+def _idx_arg(xs):
+    """index argument: an int64 ndarray; a plain list when a value does not fit int64 (np.asarray is the callee's job)"""
+    import numpy as np
+    if any(not -2 ** 63 <= x < 2 ** 63 for x in xs):
+        return list(xs)
+    return np.array(xs, dtype=int)
+
+
 def _err(e):
     return "ERR:" + type(e).__name__
 
@@ -700,11 +798,11 @@ def _seg_impl(case):
             elif w[0] == "iter":
                 out.append("ok " + _groups([s.uid for s in F[w[1]]["iter"](arr)]))
             elif w[0] == "masks":
-                out.append("ok " + _rows(F[w[1]]["masks"](arr, np.array(_parse(w[2]), dtype=int))))
+                out.append("ok " + _rows(F[w[1]]["masks"](arr, _idx_arg(_parse(w[2])))))
             elif w[0] == "startsfor":
-                out.append("ok " + _ints(F[w[1]]["startsfor"](arr, np.array(_parse(w[2]), dtype=int))))
+                out.append("ok " + _ints(F[w[1]]["startsfor"](arr, _idx_arg(_parse(w[2])))))
             elif w[0] == "positions":
-                out.append("ok " + _ints(F[w[1]]["positions"](arr, np.array(_parse(w[2]), dtype=int))))
+                out.append("ok " + _ints(F[w[1]]["positions"](arr, _idx_arg(_parse(w[2])))))
             elif w[0] == "apply":
                 res = F[w[1]]["apply"](arr, np.array(_parse(w[3]), dtype=int), _pyfn(w[2]))
                 out.append(_show_apply(res, w[2]))
@@ -1004,23 +1102,30 @@ def _seg_check(case, atoms, arr, tag):
         # malformed indices FIRST: must be rejected, never answered, and must leave array and argument untouched
         # (hardening class 2); the valid calls below then run on the same objects
         if case.get("bad_idx") is not None:
-            ba = np.array(case["bad_idx"], dtype=int)
+            ba = _idx_arg(case["bad_idx"])
             for fname, f in ((f"get_{nm}_masks", f_masks), (f"get_{nm}_starts_for", f_sfor), (f"get_{nm}_positions", f_pos)):
                 try:
                     r = f(arr, ba)
                     bad(f"{fname}/accepts-invalid-index", f"{fname}({case['bad_idx']}) on {n} atoms returned {np.asarray(r).tolist()!r:.80}")
-                except (ValueError, IndexError):
-                    pass
+                except ValueError:
+                    pass            # the documented refusal (C17_index_rejection); any other class is a finding
                 except Exception as e:  # noqa: BLE001
                     bad(f"{fname}/invalid-index-{type(e).__name__}", f"{fname}({case['bad_idx']}) raised {type(e).__name__}")
-                if ba.tolist() != list(case["bad_idx"]):
-                    bad(f"{fname}/refused-call-changed-argument", f"index array is now {ba.tolist()}")
+                if list(ba) != list(case["bad_idx"]):
+                    bad(f"{fname}/refused-call-changed-argument", f"index array is now {list(ba)}")
             if case.get("bad_spread") is not None:
                 bs = np.array(case["bad_spread"], dtype=int)
+                nseg = len(exp_starts)
                 try:
-                    f_spread(arr, bs)
-                except Exception:  # noqa: BLE001
-                    pass
+                    r = f_spread(arr, bs)
+                    # C17_spread_rejects: refused unless the length is right or there is exactly one segment
+                    if nseg != 1 and nseg != len(bs):
+                        bad(f"spread_{nm}_wise/accepts-wrong-length", f"{len(bs)} values for {nseg} segments returned {np.asarray(r).tolist()!r:.60}")
+                except ValueError:
+                    if nseg == len(bs) or nseg == 1:
+                        bad(f"spread_{nm}_wise/refuses-valid-input", f"{len(bs)} values for {nseg} segments: ValueError")
+                except Exception as e:  # noqa: BLE001
+                    bad(f"spread_{nm}_wise/wrong-length-{type(e).__name__}", f"{len(bs)} values for {nseg} segments")
                 if bs.tolist() != list(case["bad_spread"]):
                     bad(f"spread_{nm}_wise/refused-call-changed-argument", f"input is now {bs.tolist()}")
         # index views
@@ -1224,11 +1329,14 @@ def _graph_oracle_child(case):
         if [i for i in range(n) if cm[i]] != comp_of[r]:
             v.append(("C17/find_connected/mask", f"n={n} bonds={bonds} root={r}: mask differs"))
     for r in case.get("bad_roots", []):
+        want = OverflowError if (r < 0 or r >= 2 ** 32) else ValueError      # C17_connected_rejects
         try:
             c = struc.find_connected(bl, r)
             v.append(("C17/find_connected/accepts-invalid-root", f"n={n} root={r} returned {list(map(int, c))[:10]}"))
-        except (ValueError, OverflowError, IndexError):
+        except want:
             pass
+        except Exception as e:  # noqa: BLE001
+            v.append((f"C17/find_connected/invalid-root-{type(e).__name__}", f"n={n} root={r}: expected {want.__name__}"))
 
     # ---- hardening class 2: queries and refused calls leave the BondList as it was
     snap = bl.as_array().tolist()
@@ -1250,14 +1358,18 @@ def _graph_oracle_child(case):
             try:
                 c = struc.find_connected(bl, np.int64(r))
                 v.append(("C17/find_connected/accepts-invalid-root", f"n={n} root=np.int64({r}) returned {list(map(int, c))[:10]}"))
-            except (ValueError, OverflowError, IndexError):
+            except (OverflowError if (r < 0 or r >= 2 ** 32) else ValueError):
                 pass
+            except Exception as e:  # noqa: BLE001
+                v.append((f"C17/find_connected/invalid-root-{type(e).__name__}", f"n={n} root=np.int64({r})"))
     if bl.as_array().tolist() != snap:
         v.append(("C17/find_connected/bond-list-mutated", f"n={n} bonds={bonds}: BondList changed by queries / refused calls"))
     if bonds:
         ba = _bond_array(bonds)
         for name, b2 in (("uint32", ba.astype(np.uint32)), ("int32", ba.astype(np.int32)), ("fortran", np.asfortranarray(ba)),
-                         ("strided", np.concatenate([ba, ba], axis=1)[:, :3]), ("two-column", ba[:, :2].copy())):
+                         ("strided", np.concatenate([ba, ba], axis=1)[:, :3]), ("two-column", ba[:, :2].copy()),
+                         ("negative-indices", ba - np.array([n, 0, 0]) * (np.arange(len(ba)) % 2 == 0).reshape(-1, 1)),
+                         ("all-negative-indices", ba - np.array([n, n, 0]))):
             try:
                 g = sorted([int(x) for x in m] for m in struc.get_molecule_indices(struc.BondList(n, b2)))
             except Exception as e:  # noqa: BLE001
@@ -1265,6 +1377,13 @@ def _graph_oracle_child(case):
                 continue
             if g != exp:
                 v.append(("C17/get_molecule_indices/bond-array-spelling", f"n={n} bonds={bonds} as {name}: {g} != {exp}"))
+    # audit 6: WF hypothesis of C17_connected - a bond index >= n must be refused when the table is built
+    for badb in ([[0, n, 1]], [[n, 0, 1]], [[n + 3, n + 3, 0]]):
+        try:
+            struc.BondList(n, np.array(badb, dtype=np.int64))
+            v.append(("C17/bond-table/out-of-range-index-accepted", f"BondList({n}, {badb}) was accepted"))
+        except (IndexError, ValueError):
+            pass
     # ---- hardening classes 4/7: every entry level (BondList / AtomArray / AtomArrayStack) of every function
     depth = 1 + (n + len(bonds)) % 3
     stk = struc.AtomArrayStack(depth, n)
@@ -1438,6 +1557,8 @@ def oracle(case):
         return [(f"C17/molecules/{r[1]}", f"n={case['n']} bonds={case['bonds']}: {r[1]}: {r[2]}")]
     if case["kind"] == "biggraph":
         return _big_oracle(case)
+    if case["kind"] == "bigseg":
+        return _bigseg_oracle(case)
     return []
 
 
@@ -1455,7 +1576,7 @@ def signature(case):
         return "seg|" + "|".join(case["ops"][:1]) + f"|{case['idx']}|{case['bad_idx']}|{case['fn']}|{case['data']}|{case.get('applyx')}"
     if case["kind"] == "graph":
         return "graph|" + "|".join(case["ops"])
-    return f"big|{case['shape']}|{case['n']}"
+    return f"big|{case.get('shape', 'seg')}|{case['n']}|{case.get('seed')}"
 
 
 def distribution(cases, impl_outs):
